@@ -254,6 +254,9 @@ func (s *state) captureBlock(block *parse.BlockNode, name string) (Value, error)
 func (s *state) walk(node parse.Node) error {
 	switch node := node.(type) {
 	case *parse.ModuleNode:
+		// A macro may be called above its definition, and from the blocks of a
+		// template whose own top level is never rendered (one that extends).
+		s.registerMacros(node.BodyNode)
 		if p := node.Parent; p != nil {
 			tplName, err := s.evalExpr(p.Tpl)
 			if err != nil {
@@ -284,7 +287,9 @@ func (s *state) walk(node parse.Node) error {
 			}
 		}
 	case *parse.MacroNode:
-		s.localMacros[node.Name] = node
+		if _, ok := s.localMacros[node.Name]; !ok {
+			s.localMacros[node.Name] = node
+		}
 		return nil
 	case *parse.TextNode:
 		_, err := io.WriteString(s.out, node.Data)
@@ -374,11 +379,32 @@ func (s *state) walkChild(node parse.Node) error {
 		}
 	case *parse.UseNode:
 		return s.walkUseNode(node)
+	case *parse.SetNode, *parse.ImportNode, *parse.FromNode:
+		// Assignments and imports at the top level of a child template take
+		// effect before its parent is rendered: its blocks rely on them.
+		return s.walk(node)
 	default:
-		// No need to handle other nodes. This function only populates blocks from a
-		// referenced template (in a use statement) and does not actually execute anything.
+		// No need to handle other nodes. Nothing else at the top level of a child
+		// template is rendered.
 	}
 	return nil
+}
+
+// registerMacros makes the macros defined at the top level of a template known
+// before its body is walked. The later of two definitions in one template wins;
+// a macro of a more derived template is not replaced by an ancestor's.
+func (s *state) registerMacros(body *parse.BodyNode) {
+	own := make(map[string]*parse.MacroNode)
+	for _, c := range body.All() {
+		if m, ok := c.(*parse.MacroNode); ok {
+			own[m.Name] = m
+		}
+	}
+	for name, m := range own {
+		if _, ok := s.localMacros[name]; !ok {
+			s.localMacros[name] = m
+		}
+	}
 }
 
 func (s *state) walkForNode(node *parse.ForNode) error {
